@@ -58,7 +58,9 @@ class CallMixin(object):
             d = self.dotted(f, st)
             if d is not None and isinstance(f.value, ast.Attribute):
                 dv = self.dotted(f.value, st)
-                if dv is not None and (getattr(self.reg, "dotted_globals", {}).get(dv) in st.glob or self.module_constant(dv, st) is not None):
+                vext = self.reg.externals.get(dv) if dv is not None else None
+                if dv is not None and (getattr(self.reg, "dotted_globals", {}).get(dv) in st.glob or self.module_constant(dv, st) is not None
+                                       or (vext is not None and vext != "drop" and not vext.params and vext.returns is not NONE)):
                     d = None        # method call on a module-qualified global / constant
             if d is not None:
                 ext = self.reg.externals.get(d)
@@ -134,6 +136,15 @@ class CallMixin(object):
                         res.extend(self.call_contract(c, [fld, seq], {}, st2, None))
                 else:
                     raise OutsideSubset("*args call of undeclared callable")
+            return res
+        if isinstance(f, ast.Attribute) and f.attr in getattr(self.reg, "opaque_methods", ()):
+            res = []
+            for st1, obj in self.ev(f.value, st):
+                if obj.ty is PY:
+                    self.notes.append("starred call .%s(*..., **...) on an opaque object: no modelled effect, assumed not to raise" % f.attr)
+                    res.append((st1, fresh(PY, "opq_" + f.attr)))
+                else:
+                    raise OutsideSubset("*args call on %r" % (obj.ty,))
             return res
         raise OutsideSubset("*args / **kwargs call")
 
@@ -444,6 +455,9 @@ class CallMixin(object):
                 raise OutsideSubset("mutation through optional container")
             return self.method(inner, name, args, kw, b, node, recv_node)
         h = getattr(self, "m_%s_%s" % (_kind(ty), name), None)
+        if h is None and ty is PY and name in getattr(self.reg, "opaque_methods", ()):
+            self.notes.append("method .%s() on an opaque object: result opaque, assumed to have no modelled effect and not to raise" % name)
+            return [(st, fresh(PY, "opq_" + name))]
         if h is None:
             raise OutsideSubset("method %s on %r" % (name, ty))
         outs = h(recv, args, kw, st, node)
@@ -807,7 +821,8 @@ class CallMixin(object):
 
     def m_str_split(self, recv, args, kw, st, node):
         r = core.ufun("str_split", [recv] + [a for a in args if a.ty in (STR, INT)], List(STR))
-        st = st.copy().assume(core.llen(r) >= 1)
+        if not self.in_spec:
+            st = st.copy().assume(core.llen(r) >= 1)
         return [(st, r)]
 
     def m_str_splitlines(self, recv, args, kw, st, node):
